@@ -19,6 +19,11 @@
   issuing API calls.  Subroutine structure: Engine.Begin / Commit / Abort are subroutines with a
   continuation tag `K` stored in the actor's local state; on return the actor is at `Pc.after`.
 
+  Engine.Begin follows /repo commit 1490243 ("read the session before taking the engine lock in
+  Begin"): for lock = true the session in ctx is read (s.mutex) BEFORE e.mutex is taken, so a nested
+  session transaction yields the nested error even on a closed engine.  The previous order is kept
+  in Model/ConcOld.lean (`stepOld`).
+
   Fields marked (ghost) are never read by a guard; they only record history for the theorems.
 -/
 namespace Lungo.Conc
@@ -53,7 +58,7 @@ inductive Res
 inductive Pc
   | idle
   -- Engine.Begin
-  | bLock | bCheck | bSessLock | bSessRead | bAcquire | bRelock | bPost
+  | bSessLock | bSessRead | bLock | bCheck | bAcquire | bRelock | bPost
   -- Engine.Commit
   | cLock | cCheck | cStore
   -- Engine.Abort
@@ -265,9 +270,25 @@ def newTxn (s : State) (l : Local) (locked : Bool) : Txn :=
 def stepBegin (s : State) (a : ActorId) (l : Local) (c : Choice) : Option State :=
   let e := s.eng
   match l.pc, c with
+  | .bSessLock, .go =>                   -- (lock ∧ session in ctx) sess.Transaction(): s.mutex.Lock(); e.mutex NOT held
+    match l.ctxSess with
+    | some sid =>
+      if (s.sess sid).mutex = none then
+        some ((s.put a { l with pc := .bSessRead } e).putS sid { s.sess sid with mutex := some a })
+      else none
+    | none => none
+  | .bSessRead, .go =>                   -- return s.txn; s.mutex.Unlock(); nested → error (before any engine check)
+    match l.ctxSess with
+    | some sid =>
+      let x := s.sess sid
+      if x.txn.isSome then
+        some ((s.put a (l.back (.err .nested)) e).putS sid { x with mutex := none })
+      else
+        some ((s.put a { l with pc := .bLock } e).putS sid { x with mutex := none })
+    | none => none
   | .bLock, .go =>                       -- B0: e.mutex.Lock()
     if e.mutex = none then some (s.put a { l with pc := .bCheck } { e with mutex := some a }) else none
-  | .bCheck, .go =>                      -- B1..B3 (entry), B4
+  | .bCheck, .go =>                      -- alive check, unlocked snapshot, or e.mutex.Unlock() before Acquire
     if !e.alive then
       some (s.put a (l.back (.err .closed)) e.unlock)
     else if !l.lockF then
@@ -275,25 +296,7 @@ def stepBegin (s : State) (a : ActorId) (l : Local) (c : Choice) : Option State 
       let t := e.nextTid
       some { s.put a { l.back .ok with t := some t } { e.unlock with nextTid := t + 1 } with
              txns := upd s.txns t (newTxn s l false) }
-    else match l.ctxSess with
-      | some _ => some (s.put a { l with pc := .bSessLock } e)          -- sess.Transaction(): wants s.mutex, holds e.mutex
-      | none => some (s.put a { l with pc := .bAcquire } e.unlock)      -- e.mutex.Unlock(); Acquire
-  | .bSessLock, .go =>                   -- Session.Transaction(): s.mutex.Lock() while holding e.mutex
-    match l.ctxSess with
-    | some sid =>
-      if (s.sess sid).mutex = none then
-        some ((s.put a { l with pc := .bSessRead } e).putS sid { s.sess sid with mutex := some a })
-      else none
-    | none => none
-  | .bSessRead, .go =>                   -- return s.txn; s.mutex.Unlock()
-    match l.ctxSess with
-    | some sid =>
-      let x := s.sess sid
-      if x.txn.isSome then
-        some ((s.put a (l.back (.err .nested)) e.unlock).putS sid { x with mutex := none })
-      else
-        some ((s.put a { l with pc := .bAcquire } e.unlock).putS sid { x with mutex := none })
-    | none => none
+    else some (s.put a { l with pc := .bAcquire } e.unlock)             -- e.mutex.Unlock(); Acquire
   | .bAcquire, .tok =>                   -- B5: <-s.tokens
     if e.token = 1 then
       some (s.put a { l with pc := .bRelock, okF := true, acq := .tok } { e with token := 0, holder := some a })
@@ -437,7 +440,10 @@ def stepUse (s : State) (a : ActorId) (l : Local) (c : Choice) : Option State :=
       let x := s.sess sid
       match x.txn with
       | some t => some ((s.put a { l with pc := .uCbSess, t := some t } e).putS sid { x with mutex := none })
-      | none => some ((s.put a { l with pc := .bLock, k := .use } e).putS sid { x with mutex := none })
+      | none =>
+        -- engine.Begin(ctx, lock): for lock = true the session in ctx is read first (no engine lock held)
+        some ((s.put a { l with pc := if l.lockF then .bSessLock else .bLock, k := .use } e).putS sid
+          { x with mutex := none })
     | none => none
   | .uCb, ch =>                          -- fn(txn) on the own locked transaction
     match l.t with
